@@ -1715,13 +1715,13 @@ fn c13_case(mi: usize, m0: &Message, atoms: &[Atom], accounts: &Vec<Account>, no
                 return;
             }
         }
-        // jurisdiction: the library reports the earliest defect, on its own, at that defect's rank
-        // (whether each single defect is caught at all is the business of the property that owns
-        // the rule; this check is about order)
+        // (A library that is lax about the earliest defect — does not refuse it on its own — also
+        // reports a later-ranked defect in its place when both are present: by the statement the
+        // error reported must be that of the earliest failing check of the *documented* order, so
+        // that is reported here as well as by the check that owns the lax rule.)
         let twin_at_rank = tout.err().map(|e| libi::classify(e).iter().any(|r| r.precedence() == min_rule.precedence())).unwrap_or(false);
         if !twin_at_rank {
-            out.probe("twin_not_reported_at_its_rank_unasserted");
-            return;
+            out.probe("twin_not_reported_at_its_rank");
         }
         out.probe("precedence_twin_compared");
         if !same_outcome(&sig(&dout), &sig(&tout)) {
